@@ -126,6 +126,8 @@ class XPathToken(Token[ta.XPathTokenType]):
         if self.label == 'axis':
             # For XPath 2.0 'attribute' multirole token ('kind test', 'axis')
             return '%s::%s' % (symbol, self[0].source)
+        elif self.label == 'kind test' and symbol == 'attribute':
+            return 'attribute(%s)%s' % (', '.join(t.source for t in self), self.occurrence or '')
         elif symbol == '/' or symbol == '//':
             if not self:
                 return symbol
